@@ -49,7 +49,7 @@ META = dict(
               'printer vs URI parser of the working tree) over generated '
               'paths x 4 formats, canonical-form identity on constructed '
               'equivalents, totality monitor of the parser on generated text '
-              'with a CPU-time budget, sys.monitoring reach counters',
+              'with a CPU-time budget, sys.monitoring reach counters; thorough tier also applies the same oracle to the CIM objects that the repository\'s own unit tests construct (harvested by a sys.monitoring PY_RETURN hook on the constructors)',
     level_text='Seeded generation of instance and class paths (all key types '
                'incl. typed/plain reals, exponent forms, INF/NaN, both '
                'datetime kinds, hostile strings, references nested to depth '
